@@ -3774,6 +3774,7 @@ async fn main() -> anyhow::Result<()> {
     // Spawn background flush task with graceful shutdown
     let mut flush_shutdown_rx = shutdown_tx.subscribe();
     let engine_for_flush = engine_arc.clone();
+    let periodic_wal_sync = matches!(fsync_policy, FsyncPolicy::Periodic(_));
     let flush_interval = if engine_config.flush_interval.is_zero() {
         Duration::from_secs(1)
     } else {
@@ -3790,6 +3791,14 @@ async fn main() -> anyhow::Result<()> {
         loop {
             tokio::select! {
                 _ = interval.tick() => {
+                    // Periodic fsync policy: the WAL writer only syncs when an append finds the
+                    // interval elapsed, so the frames written since the last such append would
+                    // stay unsynced for as long as no further write arrives.
+                    if periodic_wal_sync {
+                        if let Err(e) = engine_for_flush.cold_tier().sync_wal() {
+                            error!(error = %e, "Periodic WAL fsync failed");
+                        }
+                    }
                     match engine_for_flush.flush_hot_tier(false) {
                         Ok(count) if count > 0 => {
                             info!(docs_flushed = count, "Background flush completed");
